@@ -218,7 +218,7 @@ func hybridCase(h hyb, k int) {
 		// --- encapsulation to a public key whose X part is u
 		pkb2 := replacePart(pkb, u, h.xFirst)
 		lib.Case([]byte("hybrid-encaps:"+name), pkb2, eseed)
-		pk2, err := s.UnmarshalBinaryPublicKey(pkb2)
+		pk2, err := decodeThenScribble(s, pkb2)
 		wantE := c.X(ske, u)
 		if err != nil {
 			lib.Count("hybrid:public-key-refused-at-unmarshal")
@@ -378,7 +378,7 @@ func hpkeCase(id hpke.KEM, k int) {
 				kvio("kem-secret-not-rfc7748", name+".AuthDecapsulate", ic, "enc", u, "class", pv.class, "expected", exp, "secret", got)
 			}
 		}
-		pkU, uerr := s.UnmarshalBinaryPublicKey(u)
+		pkU, uerr := decodeThenScribble(s, u)
 		if uerr != nil {
 			lib.Count("hpke:public-key-refused-at-unmarshal")
 			if allZero(want) {
@@ -547,7 +547,7 @@ func hpkeHybridCase(k int) {
 			}
 		}
 		pkb2 := replacePart(pkb, u, true)
-		pk2, uerr := s.UnmarshalBinaryPublicKey(pkb2)
+		pk2, uerr := decodeThenScribble(s, pkb2)
 		wantE := c.X(skEb, u)
 		if uerr != nil {
 			if allZero(wantE) {
@@ -669,4 +669,17 @@ func xwingCase(k int) {
 			lib.Count("xwing:encaps-low-order-no-error")
 		}
 	}
+}
+
+// decodeThenScribble decodes a public key from a buffer of the caller's and
+// overwrites that buffer as soon as the decoder returns (a receive buffer
+// that is re-used): the key object must not live in it.
+func decodeThenScribble(s kem.Scheme, enc []byte) (kem.PublicKey, error) {
+	buf := lib.Clone(enc)
+	pk, err := s.UnmarshalBinaryPublicKey(buf)
+	for i := range buf {
+		buf[i] ^= 0xA5
+	}
+	lib.Count("public-key-buffer-overwritten-after-decoding")
+	return pk, err
 }
